@@ -27,11 +27,11 @@ ASSUMPTIONS = [
     "zero-argument super()/__class__-cell methods are not generated (rebuilding a class invalidates the cell - inherent in the approach)",
     "the 'use native slots on Python >= 3.10' warning is ignored; comparison with native slots only concerns the slot tuple",
 ]
-PLAN = {"quick": dict(histories=6000), "thorough": dict(histories=50000)}
+PLAN = {"quick": dict(histories=6000), "thorough": dict(histories=60000)}
 FLOORS = {"quick": {"classes_compared": 10000, "operations_compared": 300000, "pickle_roundtrips": 20000, "inheritance_cases": 1000, "stack_checks": 10000,
                     "repeated_name_histories": 500, "failing_decoration_histories": 500},
-          "thorough": {"classes_compared": 100000, "operations_compared": 2000000, "pickle_roundtrips": 150000, "inheritance_cases": 20000,
-                       "stack_checks": 100000, "repeated_name_histories": 5000, "failing_decoration_histories": 3000}}
+          "thorough": {"classes_compared": 100000, "operations_compared": 2000000, "pickle_roundtrips": 150000, "inheritance_cases": 10000,
+                       "stack_checks": 90000, "repeated_name_histories": 5000, "failing_decoration_histories": 3000}}
 _N = [0]
 
 
